@@ -10,11 +10,12 @@
 #include "ctx.h"
 
 /* ---- result emissions of rotating type ------------------------------------------------------------------ */
-#define NT 16
+#define NT 17
 typedef struct { const char * bytes; size_t len; int items; } emis_t;
 static const emis_t emis[NT] = {
     {"7", 1, 1}, {"#HFF", 4, 1}, {"-5", 2, 1}, {"1.5", 3, 1}, {"1", 1, 1}, {"\"a\"\"b\"", 6, 1}, {"XY", 2, 1}, {"#13a;\n", 6, 1},
     {"#13abc", 6, 1}, {"1,-2,3", 6, 3}, {"", 0, 0}, {"2.5", 3, 1}, {"#Q10", 4, 1}, {"#18\0\0\0\1\0\0\0\2", 11, 1}, {"#10", 3, 1},
+    {"\"\"", 2, 1},                 /* an empty text is an item like any other */
 #if USE_DEVICE_DEPENDENT_ERROR_INFORMATION && USE_MEMORY_ALLOCATION_FREE
     {"-113,\"Undefined header;it's a \"\"b\"\"\"", 36, 2},         /* the text holds an apostrophe (left alone) and double quotes (doubled) */
 #else
@@ -45,6 +46,7 @@ static void emit(scpi_t * c) {
         case 12: SCPI_ResultUInt64Base(c, 8, 8); break;
         case 13: SCPI_ResultArrayInt32(c, a32, 2, SCPI_FORMAT_NORMAL); break;
         case 14: SCPI_ResultArrayDouble(c, ad, 0, SCPI_FORMAT_NORMAL); break;
+        case 15: SCPI_ResultText(c, ""); break;
         default: memset(&e, 0, sizeof e); e.error_code = -113;
 #if USE_DEVICE_DEPENDENT_ERROR_INFORMATION && USE_MEMORY_ALLOCATION_FREE
             e.device_dependent_info = (char *) "it's a \"b\"";
@@ -54,12 +56,13 @@ static void emit(scpi_t * c) {
 }
 
 /* ---- unit kinds ---------------------------------------------------------------------------------------------- */
-enum { U_C0, U_CE, U_Q0, U_Q1, U_Q2, U_Q4, U_Q0E, U_Q1E, U_Q2X, U_Q1P, U_Q0P, U_Q0X, U_Q4E, U_UNDEF, U_INVALID, U_EMPTY, U_CP, NKIND, U_QPART };
-static const char * utext[] = { "C0", "CE", "Q0?", "Q1?", "Q2?", "Q4?", "Q0E?", "Q1E?", "Q2X?", "Q1P? 5", "Q0P? 5", "Q0X?", "Q4E?", "UNDEF?", "@", "", "C0 5", "", "QPART?" };
-/* emissions, handler result: 0 OK / 1 ERR without own error / 2 ERR with own error, is query, leftover parameter */
+enum { U_C0, U_CE, U_Q0, U_Q1, U_Q2, U_Q4, U_Q0E, U_Q1E, U_Q2X, U_Q1P, U_Q0P, U_Q0X, U_Q4E, U_UNDEF, U_INVALID, U_EMPTY, U_CP, U_Q0Y, NKIND, U_QPART };
+static const char * utext[] = { "C0", "CE", "Q0?", "Q1?", "Q2?", "Q4?", "Q0E?", "Q1E?", "Q2X?", "Q1P? 5", "Q0P? 5", "Q0X?", "Q4E?", "UNDEF?", "@", "", "C0 5", "Q0Y?", "", "QPART?" };
+/* emissions, handler result: 0 OK / 1 ERR without own error / 2 ERR with own error / 3 own error with a positive (device designer's) code
+ * and return value OK, is query, leftover parameter */
 static const struct { int n, res, query, leftover, defined; } ukind[] = {
     {0, 0, 0, 0, 1}, {0, 1, 0, 0, 1}, {0, 0, 1, 0, 1}, {1, 0, 1, 0, 1}, {2, 0, 1, 0, 1}, {4, 0, 1, 0, 1}, {0, 1, 1, 0, 1}, {1, 1, 1, 0, 1}, {2, 2, 1, 0, 1},
-    {1, 0, 1, 1, 1}, {0, 0, 1, 1, 1}, {0, 2, 1, 0, 1}, {4, 1, 1, 0, 1}, {0, 0, 1, 0, 0}, {0, 0, 0, 0, 0}, {0, 0, 0, 0, 0}, {0, 0, 0, 1, 1}, {0, 0, 0, 0, 0}, {0, 0, 1, 0, 1},
+    {1, 0, 1, 1, 1}, {0, 0, 1, 1, 1}, {0, 2, 1, 0, 1}, {4, 1, 1, 0, 1}, {0, 0, 1, 0, 0}, {0, 0, 0, 0, 0}, {0, 0, 0, 0, 0}, {0, 0, 0, 1, 1}, {0, 3, 1, 0, 1}, {0, 0, 0, 0, 0}, {0, 0, 1, 0, 1},
 };
 
 static scpi_result_t h_generic(scpi_t * c) {
@@ -68,6 +71,7 @@ static scpi_result_t h_generic(scpi_t * c) {
     if (k == U_QPART) { SCPI_ResultArbitraryBlockHeader(c, 10); SCPI_ResultArbitraryBlockData(c, "abc", 3); return SCPI_RES_OK; }
     for (i = 0; i < ukind[k].n; i++) emit(c);
     if (ukind[k].res == 2) SCPI_ErrorPush(c, -222);
+    if (ukind[k].res == 3) { SCPI_ErrorPush(c, 17); return SCPI_RES_OK; }
     return ukind[k].res ? SCPI_RES_ERR : SCPI_RES_OK;
 }
 /* a query with very many result items (item accounting must not wrap) */
@@ -96,7 +100,7 @@ static const scpi_command_t cmds[] = {
     {"QBIG?", h_big, 99}, {"QBLK?", h_blkn, 98},
     {"C0", h_generic, U_C0}, {"CE", h_generic, U_CE}, {"Q0?", h_generic, U_Q0}, {"Q1?", h_generic, U_Q1}, {"Q2?", h_generic, U_Q2}, {"Q4?", h_generic, U_Q4},
     {"Q0E?", h_generic, U_Q0E}, {"Q1E?", h_generic, U_Q1E}, {"Q2X?", h_generic, U_Q2X}, {"Q1P?", h_generic, U_Q1P}, {"Q0P?", h_generic, U_Q0P}, {"Q0X?", h_generic, U_Q0X},
-    {"Q4E?", h_generic, U_Q4E}, {"QPART?", h_generic, U_QPART},
+    {"Q4E?", h_generic, U_Q4E}, {"QPART?", h_generic, U_QPART}, {"Q0Y?", h_generic, U_Q0Y},
     /* the handlers the library ships */
     {"*CLS", SCPI_CoreCls, 0}, {"*ESE", SCPI_CoreEse, 0}, {"*ESE?", SCPI_CoreEseQ, 0}, {"*ESR?", SCPI_CoreEsrQ, 0}, {"*IDN?", SCPI_CoreIdnQ, 0}, {"*OPC", SCPI_CoreOpc, 0}, {"*OPC?", SCPI_CoreOpcQ, 0},
     {"*RST", SCPI_CoreRst, 0}, {"*SRE", SCPI_CoreSre, 0}, {"*SRE?", SCPI_CoreSreQ, 0}, {"*STB?", SCPI_CoreStbQ, 0}, {"*TST?", SCPI_CoreTstQ, 0}, {"*WAI", SCPI_CoreWai, 0},
